@@ -111,7 +111,7 @@ def offsets(pkts):
 ADV_HIT = [0x00, 0x00, 0x00, 0xB5, 0xBC, 0xB0, 0xA3, 0xE4, 0xF0, 0xF1, 0xFF, 0xC7]      # hit bytes that look like control words
 
 
-def alp_chip(R, cid, bc, nhits, empty=False, flags=None, adv=False):
+def alp_chip(R, cid, bc, nhits, empty=False, flags=None, adv=False, min_bytes=0):
     """`adv`: the free bytes of the hits (pixel address, hit map) are drawn from values that look like ALPIDE control words or
     padding — legal hit content, and what a decoder or a storage layer that looks at bytes out of context trips over"""
     if empty: return bytes([0xE0 | cid, bc])
@@ -119,6 +119,12 @@ def alp_chip(R, cid, bc, nhits, empty=False, flags=None, adv=False):
     for r in range(R.randint(0, 6)):
         b.append(0xC0 | R.randint(0, 31))
         for h in range(R.randint(0, nhits)):
+            addr = R.choice(ADV_HIT) if adv else R.randint(0, 255)
+            if R.random() < 0.5: b += bytes([0x40 | R.randint(0, 0x3F), addr])
+            else: b += bytes([R.randint(0, 0x3F), addr, R.choice([0x00, 0x00, 0x7F, 0x20]) if adv else R.randint(0, 0x7F)])
+    while len(b) < min_bytes:          # a very long hit list (thousands of bytes in one lane of one frame)
+        b.append(0xC0 | R.randint(0, 31))
+        for h in range(200):
             addr = R.choice(ADV_HIT) if adv else R.randint(0, 255)
             if R.random() < 0.5: b += bytes([0x40 | R.randint(0, 0x3F), addr])
             else: b += bytes([R.randint(0, 0x3F), addr, R.choice([0x00, 0x00, 0x7F, 0x20]) if adv else R.randint(0, 0x7F)])
